@@ -245,12 +245,15 @@ PROPS["C09"] = dict(suites=[("receiver", {Q: 150, T: 5000})],
          "name incl. empty, target, module path presence, file incl. Unicode, line, field added / order / one name), announced "
          "repeatedly under fresh and reused ids across persist keep/lose/new-host/discard cycles, each used once so that the metadata "
          "object shows; interned-string and metadata counts read through the cfg hook; non-trivial = a cut with an alive span or >= 2 "
-         "rounds (every case has >= 2 rounds); distinct by input text")
+         "rounds (every case has >= 2 rounds); half of the cases run with the arena's hash degraded to a constant through the cfg hook "
+         "(all descriptions in one bucket, so eq_metadata alone keeps them apart; marked descriptions, disjoint from the others); distinct by input text")
 PROPS["C10"] = dict(suites=[("arenaconc", {Q: 60, T: 2000})],
     rule="arenaconc suite: all interleavings (at lock-acquisition granularity, forced through the cfg-guarded yield point between the "
          "read-locked scan and the write-locked insertion) of 2 threads (quick) / 2-3 threads (thorough) x 1-2 announcements for equal / "
          "different / mixed work shapes; random work (2-4 threads x 1-3 announcements from a pool of 3 descriptions) under random, "
-         "possibly truncated schedules; free-running stress with 2-16 threads; non-trivial = a schedule in which steps of different "
+         "possibly truncated schedules; free-running stress with 2-16 threads; every enumerated schedule and half of the random ones and of the "
+         "stress runs are repeated with the hash degraded to a constant through the cfg hook (one bucket: the remembered bucket length and the "
+         "tail re-scan decide); non-trivial = a schedule in which steps of different "
          "threads alternate; distinct by input text")
 
 MANIFEST_TEXT["C09"] = dict(
